@@ -487,3 +487,134 @@ where
 
 /// Child number helper.
 pub fn normal(i: u32) -> ChildNumber { ChildNumber::from_normal_idx(i).unwrap() }
+
+// --------------------------------------------------------------------------
+// Descriptor key expressions (text) of every form, with the data needed to
+// check them against an independent BIP-32 derivation.
+
+#[derive(Clone, Debug)]
+pub struct KeyExpr {
+    /// public key expression as it appears in a descriptor
+    pub text: String,
+    /// same expression with the private key (xprv / WIF) where one exists
+    pub secret_text: Option<String>,
+    /// derivation steps after the xpub (each step: alternatives; one alternative unless multipath)
+    pub steps: Vec<Vec<u32>>,
+    /// path from the world's master key to the xpub in `text` (empty for the master xpub)
+    pub origin_path: Vec<u32>,
+    pub has_origin: bool,
+    /// 0 = none, 1 = unhardened wildcard, 2 = hardened wildcard
+    pub wildcard: u8,
+    pub is_xpub: bool,
+    pub n_multipath: usize,
+}
+
+const H: u32 = 0x8000_0000;
+
+fn path_str(p: &[u32], hmark: &str) -> String {
+    p.iter()
+        .map(|c| if c & H != 0 { format!("/{}{}", c & !H, hmark) } else { format!("/{}", c) })
+        .collect()
+}
+
+impl World {
+    fn xprv_at(&self, path: &[u32]) -> Xpriv {
+        let cn: Vec<ChildNumber> = path
+            .iter()
+            .map(|c| {
+                if c & H != 0 {
+                    ChildNumber::from_hardened_idx(c & !H).unwrap()
+                } else {
+                    ChildNumber::from_normal_idx(*c).unwrap()
+                }
+            })
+            .collect();
+        self.xprv.derive_priv(&self.secp, &DerivationPath::from(cn)).unwrap()
+    }
+
+    /// A random xpub-based key expression. `allow_multipath`/`allow_wildcard` restrict the forms.
+    pub fn gen_xkey(&self, rng: &mut Rng, allow_wildcard: bool, allow_multipath: bool, allow_hardened_wc: bool) -> KeyExpr {
+        let hmark = if rng.coin() { "'" } else { "h" };
+        // origin: 0-3 steps (possibly hardened) from the master
+        let n_origin = rng.below(4);
+        let origin_path: Vec<u32> = (0..n_origin)
+            .map(|_| {
+                let v = rng.below(100) as u32;
+                if rng.coin() {
+                    v | H
+                } else {
+                    v
+                }
+            })
+            .collect();
+        let xprv = self.xprv_at(&origin_path);
+        let xpub = Xpub::from_priv(&self.secp, &xprv);
+        let has_origin = n_origin > 0 || rng.chance(1, 4);
+        let fp = self.xpub.fingerprint();
+        let origin = if has_origin { format!("[{}{}]", fp, path_str(&origin_path, hmark)) } else { String::new() };
+        // derivation steps after the xpub (unhardened so that public derivation works)
+        let n_steps = rng.below(3);
+        let mut steps: Vec<Vec<u32>> = (0..n_steps).map(|_| vec![rng.below(50) as u32]).collect();
+        let mut n_multipath = 1;
+        if allow_multipath && rng.chance(1, 3) {
+            n_multipath = rng.range(2, 4);
+            let mut alts: Vec<u32> = vec![];
+            while alts.len() < n_multipath {
+                let v = rng.below(20) as u32;
+                if !alts.contains(&v) {
+                    alts.push(v);
+                }
+            }
+            let pos = rng.below(steps.len() + 1);
+            steps.insert(pos, alts);
+        }
+        let wildcard = if allow_wildcard && rng.chance(1, 2) {
+            if allow_hardened_wc && rng.chance(1, 5) {
+                2
+            } else {
+                1
+            }
+        } else {
+            0
+        };
+        let mut tail = String::new();
+        for s in &steps {
+            if s.len() == 1 {
+                tail.push_str(&format!("/{}", s[0]));
+            } else {
+                tail.push_str(&format!("/<{}>", s.iter().map(|v| v.to_string()).collect::<Vec<_>>().join(";")));
+            }
+        }
+        match wildcard {
+            1 => tail.push_str("/*"),
+            2 => tail.push_str(&format!("/*{}", hmark)),
+            _ => {}
+        }
+        KeyExpr {
+            text: format!("{}{}{}", origin, xpub, tail),
+            secret_text: Some(format!("{}{}{}", origin, xprv, tail)),
+            steps,
+            origin_path,
+            has_origin,
+            wildcard,
+            is_xpub: true,
+            n_multipath,
+        }
+    }
+
+    /// Independent BIP-32 public derivation of the key `expr` stands for, choosing
+    /// alternative `alt` of a multipath step and index `index` for the wildcard.
+    /// Goes through the private side so that hardened origins are covered.
+    pub fn derive_expr(&self, expr: &KeyExpr, alt: usize, index: u32) -> Option<secp256k1::PublicKey> {
+        let mut path = expr.origin_path.clone();
+        for s in &expr.steps {
+            path.push(if s.len() == 1 { s[0] } else { s[alt % s.len()] });
+        }
+        match expr.wildcard {
+            1 => path.push(index),
+            2 => return None,
+            _ => {}
+        }
+        Some(crate::oracle::bip32::derive_pub_from_master(self, &path))
+    }
+}
